@@ -31,6 +31,9 @@ fn comp() -> BoxedStrategy<String> {
         1 => Just(".".to_string()),
         1 => Just("".to_string()),
         3 => Just("a".to_string()),
+        // the name of files that exist outside the download directory (see the decoys below): a hostile path may point
+        // at something that is already there
+        2 => Just("decoy".to_string()),
         2 => Just("sub".to_string()),
         1 => Just("..x".to_string()),
         1 => Just("x..".to_string()),
@@ -130,6 +133,7 @@ pub fn check(case: &Case) -> Outcome {
     // decoys an escaping write could hit or sit next to
     std::fs::write(root.join("decoy"), b"decoy").unwrap();
     std::fs::write(base.join("decoy"), b"decoy").unwrap();
+    std::fs::write(base.join("l1").join("decoy"), b"decoy").unwrap();
     std::env::set_current_dir(&cwd).unwrap();
     let canary = canary_dir.to_string_lossy().to_string();
 
@@ -284,7 +288,7 @@ fn run(ctx: &WorkerCtx) -> WorkerReport {
 pub fn def() -> PropDef {
     PropDef {
         id: "C04",
-        rule: "name/path strings assembled from the component alphabet {.., ., empty, a, sub, ..x, x.., space, ..., and backslash-separated climbs such as ..\\bs} joined by / or //, plus deep climbs (20-257 harmless components followed by as many `..` or up to three more), optionally absolute (absolute ones point into a per-worker canary directory), for single-file and multi-file torrents (a fifth of the multi-file ones also carry a `length` equal to the sum of their files) (0-3 file entries: a multi-file torrent without entries still has a name) with a small valid payload; the real Extractor runs in <private root>/c/l1/l2. Oracle: recursive listing (names, sizes) of the private root outside the cwd is unchanged whether extraction reports Done or Fail; for multi-file torrents with a plain name every created entry is inside ./<name>/. Refusing and neutralising are both accepted. Non-trivial = some name/path has a `..` or is absolute; distinct by hash of the case.",
+        rule: "name/path strings assembled from the component alphabet {.., ., empty, a, sub, ..x, x.., space, ..., and backslash-separated climbs such as ..\\bs} joined by / or // (`decoy` is the name of files that exist one, two and three levels above the download directory), plus deep climbs (20-257 harmless components followed by as many `..` or up to three more), optionally absolute (absolute ones point into a per-worker canary directory), for single-file and multi-file torrents (a fifth of the multi-file ones also carry a `length` equal to the sum of their files) (0-3 file entries: a multi-file torrent without entries still has a name) with a small valid payload; the real Extractor runs in <private root>/c/l1/l2. Oracle: recursive listing (names, sizes) of the private root outside the cwd is unchanged whether extraction reports Done or Fail; for multi-file torrents with a plain name every created entry is inside ./<name>/. Refusing and neutralising are both accepted. Non-trivial = some name/path has a `..` or is absolute; distinct by hash of the case.",
         assumptions: &[
             "the number of `..` components per resulting path is capped at the depth of the cwd below the worker's private root (3), so that every escape lands where the oracle looks",
             "symlinks already present in the download directory are out of scope (the property speaks about names and paths in the metainfo)",
